@@ -79,4 +79,30 @@ def check_C09(ctx):
                   assumptions=TRUSTED)
 
 
-CHECKS = {"C11": check_C11, "C09": check_C09}
+
+# --------------------------------------------------------------------------- C16
+
+C16_LAWS = ["Utf8Preserved", "NeverLengthens", "FitsUnchanged", "FitsUnchangedWords", "EscapeLeavesNoSpecials", "EscapeOnceIdempotent",
+            "UrlRoundTrip", "StripIsBoth", "CaseLaws", "SizeCountsChars", "SplitJoinInverse", "AppendPrepend",
+            "RemoveIsReplaceEmpty"]
+
+
+def check_C16(ctx):
+    runs = [({"N": 2, "Wide": "TRUE"}, "all strings of <= 2 characters over the 11-symbol alphabet")] if ctx.quick else \
+           [({"N": 3, "Wide": "TRUE"}, "all strings of <= 3 characters over the 11-symbol alphabet"),
+            ({"N": 4, "Wide": "FALSE"}, "all strings of <= 4 characters over the 6-symbol core alphabet")]
+    seen = set()
+    for consts, what in runs:
+        cases, _ = ctx.tlc_mc("MC_C16", mc_cfg(consts, C16_LAWS + ["EmitCase"]), timeout=1800)
+        cases = [c for c in cases if c["id"] not in seen]
+        seen.update(c["id"] for c in cases)
+        obs = ctx.run_cases(cases)
+        ctx.validate(obs)
+        ctx.notes.append("%s x the string-filter call grid: %d cases" % (what, len(cases)))
+    return finish(ctx, rule="every (string, string-filter call) of the bounded grids of MC_C16; TLC checks the algebraic laws "
+                            "of the statement on LqFilters for each, the implementation renders {{ s | f: args }}#{{ s }} and "
+                            "TraceRender validates the observation; non-trivial = LqFilters decides the result",
+                  assumptions=TRUSTED)
+
+
+CHECKS = {"C11": check_C11, "C09": check_C09, "C16": check_C16}
